@@ -5,7 +5,7 @@
 space, `#` starts a comment wherever it appears, the first field is the address, every later field a name; blank and address-only
 lines map nothing; an address field holding `%` makes the line skipped; a malformed address (when names follow) or name is an error.
 Addresses and names themselves are oracles (`IpAddr::from_str`, `DomainName::from_relative_dotted_string`).  `Hosts::deserialise`:
-the lines are applied in order, a later mapping for the same name and family replacing an earlier one.  By-product (C17): the
+the lines are applied in order, a later mapping for the same name and family replacing an earlier one, one malformed line making the file an error (module `file`, with parse_line as a function of the line).  By-product (C17): the
 slices `&line[start..i]` always fall on character boundaries, nothing else can panic, both loops terminate."""
 from units.base import *
 import re
@@ -15,7 +15,7 @@ HDESER = "crates/dns-types/src/hosts/deserialise.rs"
 TRUSTED = TRUSTED_COMMON + [
     "R47: `line.char_indices()` read as the materialised vector of its (byte offset, character) pairs (`shim_char_indices`): one pair per character, in order; the offset of a character equals its index as long as every earlier character is ASCII",
     "R47: `&line[a..b]` / `&line[a..]` as shims that REQUIRE the bounds to be in range and every character before the upper bound (resp. before `a`) to be ASCII - so that byte offsets are character indices and boundaries - and return that sub-sequence of characters",
-    "oracles: IpAddr::from_str as `ip_of(text)`, DomainName::from_relative_dotted_string(root, text) as `name_of(text)` (proved total and well-formed in unit names); `data.lines()` as an oracle vector of lines",
+    "oracles: IpAddr::from_str as `ip_of(text)`, DomainName::from_relative_dotted_string(root, text) as `name_of(text)` (proved total and well-formed in unit names); `data.lines()` as an oracle vector of lines (`lines_of`); in module `file`, parse_line is the uninterpreted `line_result(line)` (assumed: it is a function of the line; what function: its contract in the root module)",
     "std::net::IpAddr as a transparent enum; HashSet / HashMap as vstd models them (key model axiom for DomainName); `for x in set` / consuming iteration through shim_hashset_into_vec (same elements, each once)",
 ]
 
@@ -116,7 +116,84 @@ spec fn has_addr(st: State) -> bool { st is SkipToName || st is ReadingName }
 spec fn eff_addr(st: State, address: IpAddr, before: Option<IpAddr>) -> Option<IpAddr> { if has_addr(st) { Some(address) } else { before } }
 """
 
+FILE_RS = """
+// ---- the file level: lines applied in order, a later mapping for the same name and family replacing an earlier one
+pub uninterp spec fn lines_of(data: Seq<char>) -> Seq<Seq<char>>;
+// R47: `data.lines()` as the vector of the lines (an oracle: how text is split into lines is std's)
+#[verifier::external_body]
+fn shim_lines(data: &str) -> (r: Vec<&str>)
+    ensures r@.len() == lines_of(data@).len(), forall|i: int| 0 <= i < r@.len() ==> (#[trigger] r@[i])@ == lines_of(data@)[i],
+{ data.lines().collect() }
+// R4: `for name in set` (consuming) iterates this vector instead: the same elements
+#[verifier::external_body]
+fn shim_names_into_vec(a: HashSet<DomainName>) -> (r: Vec<DomainName>)
+    ensures forall|x: DomainName| r@.contains(x) <==> a@.contains(x),
+{ a.into_iter().collect() }
+// what parse_line makes of a line (its meaning against hosts(5): parse_line's own contract)
+pub uninterp spec fn line_result(l: Seq<char>) -> Result<Option<(IpAddr, Set<DomainName>)>, ()>;
+pub open spec fn v4_of(a: IpAddr) -> Ipv4Addr { match a { IpAddr::V4(ip) => ip, _ => arbitrary() } }
+pub open spec fn v6_of(a: IpAddr) -> Ipv6Addr { match a { IpAddr::V6(ip) => ip, _ => arbitrary() } }
+pub open spec fn set_all<V>(m: Map<DomainName, V>, names: Set<DomainName>, v: V) -> Map<DomainName, V> {
+    Map::new(m.dom().union(names), |n: DomainName| if names.contains(n) { v } else { m[n] })
+}
+// the two maps after the first k lines; None: one of them is malformed
+pub open spec fn after_lines(ls: Seq<Seq<char>>, k: int) -> Option<(Map<DomainName, Ipv4Addr>, Map<DomainName, Ipv6Addr>)> decreases k {
+    if k <= 0 { Some((Map::<DomainName, Ipv4Addr>::empty(), Map::<DomainName, Ipv6Addr>::empty())) } else {
+        match after_lines(ls, k - 1) {
+            None => None,
+            Some((m4, m6)) => match line_result(ls[k - 1]) {
+                Err(_) => None,
+                Ok(None) => Some((m4, m6)),
+                Ok(Some((IpAddr::V4(ip), names))) => Some((set_all(m4, names, ip), m6)),
+                Ok(Some((IpAddr::V6(ip), names))) => Some((m4, set_all(m6, names, ip))),
+            },
+        }
+    }
+}
+pub proof fn lemma_none_stays(ls: Seq<Seq<char>>, j: int, k: int)
+    requires j <= k
+    ensures after_lines(ls, j) is None ==> after_lines(ls, k) is None
+    decreases k - j
+{
+    if j < k { lemma_none_stays(ls, j, k - 1); }
+}
+"""
+
 SPECS = {
+    "Hosts::new": {"props": [], "contract": "    ensures r.v4@ == Map::<DomainName, Ipv4Addr>::empty(), r.v6@ == Map::<DomainName, Ipv6Addr>::empty(),"},
+    "Hosts::deserialise": {"props": ["C14", "C17"],
+        "rewrites": [("R47", r"data\.lines\(\)", "shim_lines(data)"), ("R4", r"for name in it2__: new_names", "let ghost names__ = new_names@; let names_vec__ = shim_names_into_vec(new_names); let ghost nv__ = names_vec__@; proof { assert(nv__.take(0).to_set() =~= Set::<DomainName>::empty()); assert(set_all(m4__, Set::<DomainName>::empty(), arbitrary::<Ipv4Addr>()) =~= m4__); assert(set_all(m6__, Set::<DomainName>::empty(), arbitrary::<Ipv6Addr>()) =~= m6__); } for name in it2__: names_vec__")],
+        "contract": """    ensures
+        r is Ok <==> after_lines(lines_of(data@), lines_of(data@).len() as int) is Some, // [C14:one_malformed_line_makes_the_file_an_error]
+        r is Ok ==> (r->Ok_0.v4@, r->Ok_0.v6@) == after_lines(lines_of(data@), lines_of(data@).len() as int)->Some_0, // [C14:lines_apply_in_order_a_later_mapping_replacing_an_earlier_one_of_the_same_family]""",
+        "entry": "broadcast use vstd::std_specs::hash::group_hash_axioms, axiom_dn_key_model;",
+        "loops": {
+            "0": {"kw": "for", "iter_name": "it__", "spec": """        invariant
+            it__.seq().len() == lines_of(data@).len(), forall|i: int| 0 <= i < it__.seq().len() ==> (#[trigger] it__.seq()[i])@ == lines_of(data@)[i],
+            after_lines(lines_of(data@), it__.index@ as int) == Some((hosts.v4@, hosts.v6@)), // [C14:lines_apply_in_order_a_later_mapping_replacing_an_earlier_one_of_the_same_family]""",
+                  "entry": "broadcast use vstd::std_specs::hash::group_hash_axioms, axiom_dn_key_model; let ghost k__ = it__.index@ as int; let ghost m4__ = hosts.v4@; let ghost m6__ = hosts.v6@; proof { assert(line@ == lines_of(data@)[k__]); lemma_none_stays(lines_of(data@), k__ + 1, lines_of(data@).len() as int); }"},
+            "1": {"kw": "for", "iter_name": "it2__", "spec": """                invariant
+                    it2__.seq() == nv__, forall|x: DomainName| nv__.contains(x) <==> names__.contains(x),
+                    address is V4 ==> hosts.v4@ == set_all(m4__, it2__.seq().take(it2__.index@ as int).to_set(), v4_of(address)) && hosts.v6@ == m6__, // [C14:every_name_of_a_line_is_mapped_in_the_map_of_the_address_family]
+                    address is V6 ==> hosts.v6@ == set_all(m6__, it2__.seq().take(it2__.index@ as int).to_set(), v6_of(address)) && hosts.v4@ == m4__, // [C14:every_name_of_a_line_is_mapped_in_the_map_of_the_address_family]""",
+                  "entry": """broadcast use vstd::std_specs::hash::group_hash_axioms, axiom_dn_key_model;
+proof {
+    let j = it2__.index@ as int; let sq = it2__.seq(); let a = sq.take(j + 1); let b = sq.take(j);
+    assert(a =~= b.push(name));
+    assert(a.to_set() =~= b.to_set().insert(name)) by {
+        assert forall|x: DomainName| a.to_set().contains(x) <==> b.to_set().insert(name).contains(x) by {
+            if a.contains(x) { let i = choose|i: int| 0 <= i < a.len() && a[i] == x; if i < j { assert(b[i] == x); } }
+            if b.contains(x) { let i = choose|i: int| 0 <= i < b.len() && b[i] == x; assert(a[i] == x); }
+            if x == name { assert(a[j] == x); }
+        }
+    }
+    if address is V4 { assert(set_all(m4__, sq.take(j).to_set().insert(name), v4_of(address)) =~= set_all(m4__, sq.take(j).to_set(), v4_of(address)).insert(name, v4_of(address))); }
+    if address is V6 { assert(set_all(m6__, sq.take(j).to_set().insert(name), v6_of(address)) =~= set_all(m6__, sq.take(j).to_set(), v6_of(address)).insert(name, v6_of(address))); }
+}"""},
+        },
+        "anchors": [
+            {"after_re": r"(?s)for name in new_names \{.*?\n                \}", "proof": "proof { assert(nv__.take(nv__.len() as int) =~= nv__); assert(nv__.to_set() =~= names__); }"},
+        ]},
     "parse_line": {"props": ["C14", "C17"],
         "rewrites": [("R47", r"line\.char_indices\(\)", "shim_char_indices(line)"),
                      ("R47", r"&line\[\*start\.\.(i[^\]]*)\]", r"shim_str_slice(line, *start, \1)"),
@@ -164,6 +241,10 @@ CANARIES = [
     {"name": "last_name_of_the_line_dropped", "file": HDESER, "old": "    if let State::ReadingName { start } = state {", "new": "    if let State::ReadingAddress { start } = state {"},
     {"name": "name_slice_one_short", "file": HDESER, "old": "                let name_str = &line[*start..i];", "new": "                let name_str = &line[*start..i - 1];"},
     {"name": "slice_past_the_line", "file": HDESER, "old": "        let name_str = &line[start..];", "new": "        let name_str = &line[start + 1..];"},
+    {"name": "first_mapping_wins", "file": HDESER, "old": "                        IpAddr::V4(ip) => {\n                            hosts.v4.insert(name, ip);", "new": "                        IpAddr::V4(ip) => {\n                            hosts.v4.entry(name).or_insert(ip);"},
+    {"name": "first_mapping_wins_v6", "file": HDESER, "old": "                        IpAddr::V6(ip) => {\n                            hosts.v6.insert(name, ip);", "new": "                        IpAddr::V6(ip) => {\n                            if !hosts.v6.contains_key(&name) { hosts.v6.insert(name, ip); }"},
+    {"name": "malformed_line_skipped", "file": HDESER, "old": "            if let Some((address, new_names)) = parse_line(line)? {", "new": "            if let Ok(Some((address, new_names))) = parse_line(line) {"},
+    {"name": "v6_names_filed_under_v4_of_the_previous_line", "file": HDESER, "old": "                        IpAddr::V6(ip) => {\n                            hosts.v6.insert(name, ip);\n                        }", "new": "                        IpAddr::V6(_) => (),"},
     {"name": "non_ascii_let_through", "file": HDESER, "old": "        if !octet.is_ascii() {\n            return Err(Error::ExpectedAscii { octet });\n        }\n", "new": ""},
 ]
 
@@ -181,4 +262,22 @@ def build(G):
     specs["DomainName::from_relative_dotted_string"] = {"props": [], "mode": "assume", "contract": "    ensures origin.labels@.len() == 1 ==> r == name_of(s@), // the name parser as an oracle (its totality and well-formedness: unit names)"}
     G.impl(T, "DomainName", ["root_domain", "from_relative_dotted_string"], "DomainName::", specs)
     G.top_fn(D, "parse_line", specs)
+    G.raw("} // verus!")
+    # the file level in a module of its own: there parse_line is its contract's summary `line_result` (a function of the line)
+    G.raw("mod file { use super::*; verus! {")
+    H = G.src(HTYPES)
+    G.item(H, "struct", "Hosts", drop_derive=("Debug", "Clone", "Eq", "PartialEq"))
+    G.raw(FILE_RS, ("spec", "hosts file spec"))
+    G.raw(""" // parse_line as Hosts::deserialise sees it: a function of the line (assumed; what that function is: parse_line's contract above)
+#[verifier::external_body]
+fn parse_line(line: &str) -> (r: Result<Option<(IpAddr, HashSet<DomainName>)>, Error>)
+    ensures match r {
+        Ok(None) => line_result(line@) == Ok::<Option<(IpAddr, Set<DomainName>)>, ()>(None),
+        Ok(Some((a, ns))) => line_result(line@) == Ok::<Option<(IpAddr, Set<DomainName>)>, ()>(Some((a, ns@))),
+        Err(_) => line_result(line@) is Err },
+{ unimplemented!() }""", ("spec", "parse_line summary"))
+    G.impl(H, "Hosts", ["new"], "Hosts::", specs)
+    G.impl(D, "Hosts", ["deserialise"], "Hosts::", specs)
+    G.raw("} }")
+    G.raw("verus! {")
     end(G)
